@@ -390,7 +390,12 @@ def fuzz_unit(job):
     out = dict(name=name, runs=0, skipped=0, failures=[], distinct=0)
     seen = set()
     cc = reg.class_contract_of(c)
-    for _ in range(n):
+    # at least n runs; cheap functions get more (up to 20 n within about half a second), so that
+    # history-dependent slips -- a module-level cache keyed too coarsely -- meet a second input
+    t_fz = time.time()
+    for k_ in range(20 * n):
+        if k_ >= n and (time.time() - t_fz > 0.5 or out.get('failures')):
+            break
         try:
             args = native.sample_args(c, reg, rng)
         except Exception as e:
@@ -554,9 +559,17 @@ def run_property(pid, tier='quick', seed=0, extra_checks=None, modules=None, job
                              engine_error=f'worker crashed: {e!r}', secs=0, solver_secs=0,
                              src_sha=None, exits={}, queries=0, used=[], pending={})
                 results[u] = d if u not in results else merge_unit_dicts(results[u], d)
-                # unexplored subtrees of this unit: one job per decision script
+                # unexplored subtrees of this unit: one job per decision script (none once an
+                # obligation of the unit has failed and a few hundred more paths were looked at)
+                ru = results[u]
+                if any(o['status'] == 'failed' for o in ru['obls'].values()):
+                    ru.setdefault('paths_at_failure', ru['paths'])
+                stop = 'paths_at_failure' in ru and ru['paths'] - ru['paths_at_failure'] > 400
                 for suffix, scripts in d.get('pending', {}).items():
                     for sc in scripts:
+                        if stop:
+                            ru['truncated'] = True
+                            continue
                         futs[ex.submit(verify_part, (u[1], suffix, [sc]))] = ('part', u)
                 # closure: contracts relied on at call sites must be verified in this run too
                 for q in d.get('used', []):
